@@ -106,6 +106,8 @@ def run_trainer_history(ctx, desc, prop, pre_seq, post_seq, rewards, extra_check
     except Exception as e:  # noqa: BLE001
         ctx.violation(ctx.exc_signature(e, f"construct.{name}"), f"{type(e).__name__}: {str(e)[:160]}", desc)
         return False
+    if h.cell_reduction_none:
+        ctx.count("cells_registered_with_batch_reduction_none")
     if h.online:
         ctx.count("cases_with_the_trainer_stepped_from_a_layer_forward_hook")
     if desc.get("per_cell"):
